@@ -80,6 +80,36 @@ def h_eq(d, sx, sy, lb, lf, feat):
     return True
 
 
+def h_eq_shared(d, sx, lb, lf, feat, depth):
+    """y re-uses x's own sub-objects (atoms / whole sub-categories / features) below `depth`, with fresh symbolic slashes and
+    bases above: equality must still be decided by structure, slashes, atoms and features alone"""
+    C = catgen.cats()
+    x = _mk(d, 'x', sx, lb, lf, feat)
+    n = [0]
+
+    def rebuild(c, level):
+        n[0] += 1
+        if level >= depth:
+            return c                                  # the very same object
+        if c.is_functor:
+            l = rebuild(c.left, level + 1)
+            sl = d.char_in('y.s%d' % n[0], '/\\|')
+            return C.Functor(l, sl, rebuild(c.right, level + 1))
+        return C.Atom(d.string('y.b%d' % n[0], lb, ANYCHAR), c.feature)   # shares the feature object
+    y = rebuild(x, 0)
+    r = (x == y)
+    ref = ref_eq(x, y)
+    if r != ref or (y == x) != ref:
+        return ('eq.differs-from-structural-equality.shared-subobjects', r, ref, sym_str(x), sym_str(y))
+    if (x != y) == ref:
+        return ('eq.ne-inconsistent.shared-subobjects',)
+    if r and hash(x) != hash(y):
+        return ('hash.differs-for-equal.shared-subobjects',)
+    if (x ^ y) != ref_blind(x, y):
+        return ('xor.differs-from-feature-blind-equality.shared-subobjects',)
+    return True
+
+
 def h_str(d, sx, lb, lf, feat, delta):
     x = _mk(d, 'x', sx, lb, lf, feat)
     t = sym_str(x)
@@ -176,6 +206,12 @@ def obligations(tier):
                 for delta in (0, -1, 1):
                     yield Obligation('C13.str[%s,lb=%d,lf=%d,%s,d=%d]' % (shape_name(sx), lb, lf, feat, delta), 'h_str',
                                      dict(sx=sx, lb=lb, lf=lf, feat=feat, delta=delta))
+    for feat in ('mixed', 'ternary'):
+        for sx in shapes_upto(3 if q else 4):
+            for depth in (1, 2, 3):
+                if depth > 1 and sx == 'a':
+                    continue
+                yield Obligation('C13.eq-shared[%s,%s,depth=%d]' % (shape_name(sx), feat, depth), 'h_eq_shared', dict(sx=sx, lb=1, lf=1, feat=feat, depth=depth))
     sh3 = shapes_upto(2 if q else 3)
     for feat in ('mixed', 'ternary'):
         for sx in sh3:
